@@ -2,6 +2,7 @@
    Statements quantify over every reader / writer / handler, every L, S (small_body_len) and M as
    unbounded naturals, with the 2^64 side conditions explicit. *)
 From SV Require Import Base.Bytes Base.IO Model.Conn Spec.ConnSpec Proofs.ConnP Model.Server Proofs.ServerP.
+From SV Require Tie.ReadBodyTie.
 From SV Require Import Base.SrcAst Generated.SourceParams Tie.ServerTie.
 
 Section C09.
@@ -118,6 +119,24 @@ Proof. exact d7_fixed. Qed.
 Theorem c09_server_translation_complete : src_problems_conn_loop = 0%nat.
 Proof. exact conn_loop_translated. Qed.
 
+(* C09.src-body  HttpConn::read_body_to_vec and read_body_to_file (src/http_conn.rs) as TRANSLATED ON THIS RUN -- the arms
+   of `match self.read_state` in source order with their patterns (the chunked / gzip refusal, the `if len > max_len`
+   guard), errors and statements (the interim 100 Continue, the read state set BEFORE the read, Shutdown after a failed
+   read) -- interpreted by Tie/ReadBodyTie.v over the connection machine, are the machine's body readers for every
+   connection state, input, limit and cache-directory condition *)
+Theorem c09_read_body_to_vec_is_the_source :
+  forall (resp : Type) resp_code write_out resp_continue c,
+    Tie.ReadBodyTie.eval_read_body resp resp_code write_out resp_continue Generated.SourceParams.src_read_body_to_vec None true c
+    = Model.Conn.read_body_to_vec resp resp_code write_out resp_continue true c.
+Proof. exact Tie.ReadBodyTie.read_body_to_vec_tie. Qed.
+Theorem c09_read_body_to_file_is_the_source :
+  forall (resp : Type) resp_code write_out resp_continue c dir_ok max_len,
+    Tie.ReadBodyTie.eval_read_body resp resp_code write_out resp_continue Generated.SourceParams.src_read_body_to_file (Some max_len) dir_ok c
+    = Model.Conn.read_body_to_file resp resp_code write_out resp_continue true c dir_ok max_len.
+Proof. exact Tie.ReadBodyTie.read_body_to_file_tie. Qed.
+Theorem c09_read_body_translation_complete : Generated.SourceParams.src_problems_read_body = 0%nat.
+Proof. exact Tie.ReadBodyTie.read_body_translated. Qed.
+
 Print Assumptions c09_small_body_in_memory.
 Print Assumptions c09_large_asks_first.
 Print Assumptions c09_over_limit_refused_single_run.
@@ -130,3 +149,6 @@ Print Assumptions c09_max_limit_overflow_refuted.
 Print Assumptions c09_413_second_run_refuted.
 Print Assumptions c09_handle_once_is_the_source.
 Print Assumptions c09_server_translation_complete.
+Print Assumptions c09_read_body_to_vec_is_the_source.
+Print Assumptions c09_read_body_to_file_is_the_source.
+Print Assumptions c09_read_body_translation_complete.
